@@ -13,4 +13,18 @@ for cp in range(1, 0x110000):
 segs.append([lo, 0x10FFFF, cur])
 out = os.path.join(os.path.dirname(os.path.abspath(__file__)), "..", "data", "gc14.json")
 json.dump({"version": unicodedata.unidata_version, "segs": segs}, open(out, "w"), separators=(",", ":"))
-print(len(segs), "segments")
+# the same data, shaped as one interval list per category name (one-letter groups included), for ClassTrace.tla
+first = lambda c: c[0]
+names = sorted(set(c for _, _, c in segs) | set(first(c) for _, _, c in segs))
+cativ = {}
+for n in names:
+    iv = []
+    for lo, hi, c in segs:
+        if c == n or (len(n) == 1 and c[0] == n):
+            if iv and iv[-1][1] + 1 == lo:
+                iv[-1][1] = hi
+            else:
+                iv.append([lo, hi])
+    cativ[n] = iv
+json.dump(cativ, open(os.path.join(os.path.dirname(out), "cativ14.json"), "w"), separators=(",", ":"))
+print(len(segs), "segments", len(names), "names")
